@@ -15,7 +15,11 @@ def _hnd(focus, quick=128, thorough=1500, extra=()):
     return {
         "coq_files": HND_FILES + list(extra),
         "runner_vo": "Run/HandlerRun.v",
-        "harness": [{"component": "hnd", "args": ["--focus", focus, "--fixes", "all"], "quick": quick, "thorough": thorough}],
+        "harness": [{"component": "hnd", "args": ["--focus", focus, "--fixes", "all"], "quick": quick, "thorough": thorough}] + (
+            # requests addressed to a node with an Ed25519 identity (building the handshake fails): monitor only,
+            # the model covers secp256k1 contacts
+            [{"component": "hnd", "args": ["--focus", focus + "ed", "--fixes", "all"], "quick": 48, "thorough": 600, "correspondence": False}]
+            if focus in ("c04", "c13") else []),
         "trusted_base": HND_TB,
         "assumptions": ["request ids chosen by the application are distinct per run", "oracle freshness where a theorem states it"],
         "explanation": "theorems about Model/Handler.v + step-by-step correspondence of the real Handler (virtual wire, paused clock) with the model on generated event histories + direct monitors written from the property text",
